@@ -7,6 +7,21 @@ V = os.path.dirname(os.path.dirname(os.path.abspath(__file__)))
 PIN = ("import zope; zope.__path__[:] = ['%s/src/zope', '/venv/lib/python3.12/site-packages/zope']; import sys, pytest; "
        "sys.exit(pytest.main(['-q', '-p', 'no:cacheprovider', '--continue-on-collection-errors', "
        "'src/zope/testrunner/tests/test_digraph.py', 'src/zope/testrunner/tests/test_threadsupport.py']))")
+# rounds 3+: the whole pinned suite against the worktree's code; the set of passing tests must not shrink
+PINALL = ("import zope; zope.__path__[:] = ['%s/src/zope', '/venv/lib/python3.12/site-packages/zope']; import sys, pytest; "
+          "sys.exit(pytest.main(['-q', '-p', 'no:cacheprovider', '--timeout=900', '--continue-on-collection-errors', '--junitxml=%s']))")
+
+
+def passed_set(wt, tag):
+    import xml.etree.ElementTree as ET
+    x = '/tmp/seed_junit_%s_%d.xml' % (tag, os.getpid())
+    sh(['/venv/bin/python', '-c', PINALL % (wt, x)], cwd=wt)
+    ok = set()
+    for tc in ET.parse(x).getroot().iter('testcase'):
+        if not any(c.tag in ('failure', 'error', 'skipped') for c in tc):
+            ok.add(tc.get('classname', '') + '::' + tc.get('name', ''))
+    os.remove(x)
+    return ok
 
 
 def sh(cmd, cwd=None, timeout=600):
@@ -21,10 +36,14 @@ def do_import(prop, letter):
     log = []
     rc, out = sh(['git', '-C', wt, 'status', '--porcelain']); assert out.strip() == '', 'worktree dirty: ' + out
     rc0, out0 = sh(['/venv/bin/python', demo, wt + '/src'], timeout=180); log.append(('demo on unchanged', rc0))
+    base_ok = passed_set(wt, 'clean')
     rc, out = sh(['git', '-C', wt, 'apply', diff]); assert rc == 0, out
     try:
         rc1, out1 = sh(['/venv/bin/python', demo, wt + '/src'], timeout=180); log.append(('demo with change', rc1))
-        rct, outt = sh(['/venv/bin/python', '-c', PIN % wt], cwd=wt); log.append(('pinned tests with change', rct, outt.strip().splitlines()[-1]))
+        mut_ok = passed_set(wt, 'mut')
+        lost = sorted(base_ok - mut_ok)
+        rct = 0 if (not lost and len(base_ok) >= 42) else 1
+        log.append(('pinned suite with change', rct, '%d of %d passing tests still pass%s' % (len(base_ok & mut_ok), len(base_ok), '; LOST ' + ', '.join(lost[:3]) if lost else '')))
         rcc, outc = sh('/venv/bin/python -m py_compile %s/src/zope/testrunner/*.py' % wt, timeout=120); log.append(('compiles', rcc))
     finally:
         sh(['git', '-C', wt, 'checkout', '--', '.'])
@@ -42,7 +61,7 @@ def do_import(prop, letter):
     m.update({'id': sid, 'property': prop, 'confirmed': {'demo_unchanged_exit': rc0, 'demo_changed_exit': rc1,
               'pinned_tests_exit': rct, 'pinned_tests_last_line': log[2][2]},
               'what_i_ran': ['/venv/bin/python demo.py <worktree>/src (before and after git apply patch.diff)',
-                             'pinned tests test_digraph.py + test_threadsupport.py against the worktree code',
+                             'whole pinned pytest suite against the worktree code, set of passing tests compared with the clean worktree',
                              'python -m py_compile src/zope/testrunner/*.py with the change']})
     json.dump(m, open(os.path.join(d, 'meta.json'), 'w'), indent=1)
     return True
